@@ -144,6 +144,9 @@ def warm_up():
     import multiprocessing, multiprocessing.connection, multiprocessing.queues, multiprocessing.util  # noqa
     import multiprocessing.synchronize, multiprocessing.resource_tracker, multiprocessing.spawn  # noqa
     import multiprocessing.resource_sharer, multiprocessing.reduction, multiprocessing.pool  # noqa
+    import ctypes, multiprocessing.sharedctypes, multiprocessing.heap, multiprocessing.managers  # noqa
+    import multiprocessing.popen_fork, multiprocessing.popen_spawn_posix, multiprocessing.popen_forkserver  # noqa
+    import multiprocessing.forkserver, multiprocessing.shared_memory  # noqa
     import loky, loky.backend.popen_loky_posix, loky.backend.resource_tracker  # noqa
     import loky.backend.fork_exec, loky.backend.utils, loky.cloudpickle_wrapper  # noqa
     import hmac, secrets, random, bisect, math, json, zlib, array, mmap, signal, atexit, faulthandler  # noqa
@@ -239,6 +242,10 @@ def run_sim(spec, program, replay=None, lenient=False, wall_limit=60.0):
             gc.enable()
         R.sched = R.kernel = R.run = None
     new_mods = sorted(n for n in set(sys.modules) - modnames_before if not rt._is_mine(n))
+    # contamination guard: a loky/multiprocessing module first imported *during* the run saw the real os
+    late = sorted(set(n for p in k.procs.values() for n in getattr(p, "late_modules", ())))
+    if late:
+        new_mods = new_mods + ["late:" + n for n in late]
     res.outcome = out
     res.sched = sched
     res.kernel = k
